@@ -1220,6 +1220,29 @@ impl W5Check {
                     th.push(TOp::Append { r: 2, len: 3000, tag: tag.wrapping_add(4 + t as u64) });
                 }
             }
+            "C10" if rng.chance(1, 6) => {
+                // several threads grow the file at once, by different factors (one needs more than
+                // double): whatever length one of them decides on, nobody's extent may end up outside
+                // the file or lose bytes
+                cfg.vec_kinds = vec![9; nthreads];
+                let big = rng.below(nthreads);
+                for (t, th) in threads.iter_mut().enumerate() {
+                    tag = tag.wrapping_add(2);
+                    let r = rng.below(2);
+                    if t == big {
+                        th.push(TOp::Append { r, len: *rng.pick(&[2_500_000usize, 5_000_000]), tag });
+                    } else {
+                        th.push(TOp::Append { r, len: *rng.pick(&[70_000usize, 300_000, 1_000_000]), tag });
+                        if rng.chance(1, 2) {
+                            tag = tag.wrapping_add(2);
+                            th.push(TOp::Append { r: 1 - r, len: 300_000, tag });
+                        }
+                    }
+                    if rng.chance(1, 3) {
+                        th.push(TOp::Flush);
+                    }
+                }
+            }
             "C10" => {
                 // every thread works on its own regions (and maybe its own vector); one may hold a reader
                 cfg.vec_kinds = (0..nthreads).map(|_| if rng.chance(1, 3) { rng.below(4) } else { 9 }).collect();
